@@ -67,7 +67,9 @@ func rangeMonitor(in *bg.Input, plan []bg.PlanEntry) *cf.Monitor {
 		if len(subs) == 0 {
 			continue
 		}
-		sort.SliceStable(subs, func(i, j int) bool { return sarama.VerifBalanceHash(t.Name, subs[i]) < sarama.VerifBalanceHash(t.Name, subs[j]) })
+		sort.SliceStable(subs, func(i, j int) bool {
+			return sarama.VerifBalanceHash(t.Name, subs[i]) < sarama.VerifBalanceHash(t.Name, subs[j])
+		})
 		tie := false
 		for i := 1; i < len(subs); i++ {
 			if sarama.VerifBalanceHash(t.Name, subs[i]) == sarama.VerifBalanceHash(t.Name, subs[i-1]) {
@@ -307,7 +309,7 @@ func main() {
 	}
 	// balance does not depend on honest user data (c13_sticky_balanced): forged, skewed states where performReassignments
 	// has to work, with non-identical subscriptions
-	nadv := *n / 3
+	nadv := *n / 2
 	if only != nil {
 		nadv = 0
 	}
